@@ -55,6 +55,11 @@ def nest(k):
     return rt.produce("nest", k)
 
 
+@m.memento_function(cluster="c", version="1")
+def nest2(k):
+    return rt.produce("nest2", k)
+
+
 SIGS = {
     # name: (positional-or-keyword params in order, keyword-only params, required, accepts **kw)
     "g1": (["a"], [], ["a"], False),
